@@ -43,13 +43,13 @@ func (ctx Ctx) mapType(e *ast.MapType) coq.MapType {
 }
 
 func (ctx Ctx) selectorExprType(e *ast.SelectorExpr) coq.Expr {
-	if isIdent(e.X, "filesys") && isIdent(e.Sel, "File") {
+	if ctx.isBuiltinPkg(e.X, "filesys") && isIdent(e.Sel, "File") {
 		return coq.TypeIdent("fileT")
 	}
-	if isIdent(e.X, "disk") && isIdent(e.Sel, "Block") {
+	if ctx.isBuiltinPkg(e.X, "disk") && isIdent(e.Sel, "Block") {
 		return coq.TypeIdent("disk.blockT")
 	}
-	if isIdent(e.X, "sync") &&
+	if ctx.isBuiltinPkg(e.X, "sync") &&
 		(isIdent(e.Sel, "Cond") || isIdent(e.Sel, "Mutex")) {
 		ctx.unsupported(e, "%s without pointer indirection", ctx.printGo(e))
 	}
@@ -97,10 +97,10 @@ func (ctx Ctx) coqTypeOfType(n ast.Node, t types.Type) coq.Type {
 		if t.Obj().Pkg() == nil {
 			ctx.unsupported(n, "unexpected built-in type %v", t.Obj())
 		}
-		if t.Obj().Pkg().Name() == "filesys" && t.Obj().Name() == "File" {
+		if isBuiltinType(t.Obj(), "filesys", "File") {
 			return coq.TypeIdent("fileT")
 		}
-		if t.Obj().Pkg().Name() == "disk" && t.Obj().Name() == "Disk" {
+		if isBuiltinType(t.Obj(), "disk", "Disk") {
 			return coq.TypeIdent("disk.Disk")
 		}
 		if ctx.dep != nil && t.Obj().Pkg().Path() == ctx.pkgPath {
@@ -206,12 +206,18 @@ func (ctx Ctx) coqType(e ast.Expr) coq.Type {
 	return coq.TypeIdent("<type>")
 }
 
+// isBuiltinType reports whether obj is the type called name of a package called
+// pkgName that is one of the built-in imports (not a user package of that name).
+func isBuiltinType(obj *types.TypeName, pkgName string, name string) bool {
+	return obj.Pkg() != nil && obj.Pkg().Name() == pkgName &&
+		obj.Name() == name && builtinImports[obj.Pkg().Path()]
+}
+
 func isLockRef(t types.Type) bool {
 	if t, ok := t.(*types.Pointer); ok {
 		if t, ok := t.Elem().(*types.Named); ok {
 			name := t.Obj()
-			return name.Pkg().Name() == "sync" &&
-				name.Name() == "Mutex"
+			return isBuiltinType(name, "sync", "Mutex")
 		}
 	}
 	return false
@@ -221,8 +227,7 @@ func isCFMutexRef(t types.Type) bool {
 	if t, ok := t.(*types.Pointer); ok {
 		if t, ok := t.Elem().(*types.Named); ok {
 			name := t.Obj()
-			return name.Pkg().Name() == "cfmutex" &&
-				name.Name() == "CFMutex"
+			return isBuiltinType(name, "cfmutex", "CFMutex")
 		}
 	}
 	return false
@@ -232,8 +237,7 @@ func isCondVar(t types.Type) bool {
 	if t, ok := t.(*types.Pointer); ok {
 		if t, ok := t.Elem().(*types.Named); ok {
 			name := t.Obj()
-			return name.Pkg().Name() == "sync" &&
-				name.Name() == "Cond"
+			return isBuiltinType(name, "sync", "Cond")
 		}
 	}
 	return false
@@ -243,8 +247,7 @@ func isWaitGroup(t types.Type) bool {
 	if t, ok := t.(*types.Pointer); ok {
 		if t, ok := t.Elem().(*types.Named); ok {
 			name := t.Obj()
-			return name.Pkg().Name() == "sync" &&
-				name.Name() == "WaitGroup"
+			return isBuiltinType(name, "sync", "WaitGroup")
 		}
 	}
 	return false
@@ -254,8 +257,8 @@ func isProphId(t types.Type) bool {
 	if t, ok := t.(*types.Pointer); ok {
 		if t, ok := t.Elem().(*types.Named); ok {
 			name := t.Obj()
-			return (name.Pkg().Name() == "machine" || name.Pkg().Name() == "primitive") &&
-				name.Name() == "prophId"
+			return isBuiltinType(name, "machine", "prophId") ||
+				isBuiltinType(name, "primitive", "prophId")
 		}
 	}
 	return false
